@@ -307,7 +307,7 @@ pub fn run(p: &Params) -> Report {
         }
     }
     // (c) random / mutated longer strings
-    let n_c = if miri { 40 } else { p.share(p.n(1_000_000, 30_000_000)) };
+    let n_c = if miri { 400 } else { p.share(p.n(1_000_000, 30_000_000)) };
     for _ in 0..n_c {
         let n_ops = 1 + r.usize(12);
         let ops: Vec<Op> = (0..n_ops).map(|_| random_op(&mut r, false)).collect();
@@ -338,7 +338,7 @@ pub fn run(p: &Params) -> Report {
         check_bytes(&mut rep, &b, "random-mutated", true);
     }
     // (d) random instruction lists
-    let n_d = if miri { 40 } else { p.share(p.n(300_000, 8_000_000)) };
+    let n_d = if miri { 400 } else { p.share(p.n(300_000, 8_000_000)) };
     for k in 0..n_d {
         let n_ops = r.usize(14);
         let ops: Vec<Op> = (0..n_ops).map(|_| random_op(&mut r, true)).collect();
@@ -348,7 +348,7 @@ pub fn run(p: &Params) -> Report {
         }
     }
     // (e) loop-heavy programs: weight from bytes / from instructions / reference on nested, clipped and overrunning bodies
-    let n_e = if miri { 20 } else { p.share(p.n(400_000, 10_000_000)) };
+    let n_e = if miri { 200 } else { p.share(p.n(400_000, 10_000_000)) };
     for _ in 0..n_e {
         let n_ops = 1 + r.usize(28);
         let ops: Vec<Op> = (0..n_ops)
